@@ -51,8 +51,11 @@ func segObs(data []byte, trex *mp4.TrexBox) string {
 		return "FBad"
 	}
 	s := f.Segments[0]
-	if len(s.Fragments) == 0 || s.Fragments[0].Moof == nil || s.Fragments[0].Moof.Traf == nil {
-		return "FBad" // not generated: the loader would panic here
+	if len(s.Fragments) == 0 {
+		return "FNoFrag"
+	}
+	if s.Fragments[0].Moof == nil || s.Fragments[0].Moof.Traf == nil {
+		return "FBad" // not generated: the loader would dereference nil here
 	}
 	first := s.Fragments[0].Moof.Traf
 	last := s.Fragments[len(s.Fragments)-1].Moof.Traf
